@@ -23,7 +23,7 @@ int instances() { return g_cfg.tier ? 60 : 24; }
 void run(size_t idx) {
 	const TypeDB& db = typeDB();
 	size_t vi = idx / db.names.size(), ti = idx % db.names.size();
-	const VerInfo& v = VERS[vi];
+	const VerInfo& v = verAt(vi);
 	const std::string& name = db.names[ti];
 	R_caseDesc(std::string(v.n) + "/" + name);
 	bool indexStrings = v.file >= 0x14010003;
@@ -118,5 +118,5 @@ MonReg reg({"C05", "exploration",
 			"read hook (arrays forced non-empty in 3 of 4, optional sections biased on/off/fair). Events: every NiRef*/NiStringRef* passing through NiBlockRef<T>::Sync / "
 			"NiStringRef::Read|Write during Get and Put. Oracle: each is a member of GetChildRefs U GetPtrs resp. GetStringRefs (string indices only from 20.1.0.3), and the multiset "
 			"of GetChildIndices equals the indices of GetChildRefs. Non-trivial = instance that serialises at least one reference or string; distinct by (version,type,payload hash).",
-			[] { return typeDB().names.size() * (size_t)NVERS; }, run, 40, 60.0, false, true, nullptr});
+			[] { return typeDB().names.size() * nAllVers(); }, run, 40, 60.0, false, true, nullptr});
 } // namespace
